@@ -232,6 +232,12 @@ theorem cps_straight {K : LoopK} {s s' : St} (h : ESteps s s') (c : Nat)
 
 /-! ### Statements -/
 
+/-- like `CPSv`, but what follows is never reached (return, break, continue) -/
+def RetV (K : LoopK) (s s' : St) (p : List Flow × Nat) : Prop :=
+  ∃ seg, s'.root.context = s.root.context ++ seg ∧ p.2 = effCount s.root.context + effCount seg ∧
+    ∀ rest code e, Lay K (effCount s.root.context) (p.1 ++ rest) (seg ++ code) e
+
+
 section leaves
 variable {g : Globals} {rg : RGlobals}
 
@@ -266,7 +272,7 @@ theorem cps_callS (hg : GlobRel g rg) (hn : GNames g) (K : LoopK) (c : CallS) (s
 theorem cps_ret_seg {K : LoopK} {s s1 : St} (h : ESteps s s1) (c : Nat)
     (hc : effCount s1.root.context = effCount s.root.context + c) (i : Instr) (hi : i.isRet = true) (s' : St)
     (hs' : s'.root.context = s1.root.context ++ [i]) :
-    CPS K s s' (fun n => (evs n c ++ [.ret (n + c)], n + c + 1)) := by
+    RetV K s s' (evs (effCount s.root.context) c ++ [.ret (effCount s.root.context + c)], effCount s.root.context + c + 1) := by
   obtain ⟨seg, h1, h2⟩ := esteps_seg h
   have hseg : effCount seg = c := by rw [h1, effCount_append] at hc; omega
   have hie : i.isEffect = true := by
@@ -274,14 +280,14 @@ theorem cps_ret_seg {K : LoopK} {s s1 : St} (h : ESteps s s1) (c : Nat)
   refine ⟨seg ++ [i], by rw [hs', h1, List.append_assoc], ?_, ?_⟩
   · dsimp only
     rw [effCount_append, hseg]; simp [effCount, hie]; omega
-  · intro rest code e _
+  · intro rest code e
     dsimp only
     rw [List.append_assoc, List.append_assoc, ← hseg]
     exact lay_seg seg _ h2 (Lay.ret K _ _ i _ e hi)
 
 theorem cps_jret (hg : GlobRel g rg) (hn : GNames g) (K : LoopK) (e : Expr) (s : St) (ss : SpecSt) (hr : DRel s ss)
     (he : (nestedReturn g e s).1.errors = s.errors) :
-    CPS K s (nestedReturn g e s).1 (lowerRet e) ∧ (nestedReturn g e s).2 = true := by
+    RetV K s (nestedReturn g e s).1 (lowerRet e (effCount s.root.context)) ∧ (nestedReturn g e s).2 = true := by
   unfold nestedReturn at he ⊢
   cases hm : exprM g e s with
   | mk a s1 =>
@@ -306,7 +312,7 @@ theorem cps_jret (hg : GlobRel g rg) (hn : GNames g) (K : LoopK) (e : Expr) (s :
 
 theorem cps_fnRet (hg : GlobRel g rg) (hn : GNames g) (K : LoopK) (resTy : Ty) (e : Expr) (s : St) (ss : SpecSt)
     (hr : DRel s ss) (he : (fnReturn g resTy e false s).1.errors = s.errors) :
-    CPS K s (fnReturn g resTy e false s).1 (lowerRet e) ∧ (fnReturn g resTy e false s).2 = true := by
+    RetV K s (fnReturn g resTy e false s).1 (lowerRet e (effCount s.root.context)) ∧ (fnReturn g resTy e false s).2 = true := by
   -- the evaluation succeeds
   have hx := exprM_ext g e s
   have hsucc : ∃ r s1, exprM g e s = (some r, s1) ∧ Trans s s1 (specExpr false ss e).1 := by
@@ -693,5 +699,490 @@ theorem lay_loopWrap (k : Name → Name → Bool → Bool → Bool → St → St
     rw [hcount] at hrest
     have := Lay.loop (K := K) (rest := rest) (c := code) (e := e) lb le (!r) hbody htail hrest
     simpa using this
+
+/-! ### Unfolding the lowering -/
+
+theorem low_ifb_let (b : LetB) (tl : List IfBodyStmt) (n : Nat) : IfBodyStmt.lowerL (.letB b :: tl) n =
+    ((lowerLet b n).1 ++ (IfBodyStmt.lowerL tl (lowerLet b n).2).1, (IfBodyStmt.lowerL tl (lowerLet b n).2).2) := by
+  rw [IfBodyStmt.lowerL]
+theorem low_ifb_bind (b : Bind) (tl : List IfBodyStmt) (n : Nat) : IfBodyStmt.lowerL (.bind b :: tl) n =
+    ((lowerBind b n).1 ++ (IfBodyStmt.lowerL tl (lowerBind b n).2).1, (IfBodyStmt.lowerL tl (lowerBind b n).2).2) := by
+  rw [IfBodyStmt.lowerL]
+theorem low_ifb_call (c : CallS) (tl : List IfBodyStmt) (n : Nat) : IfBodyStmt.lowerL (.call c :: tl) n =
+    ((lowerCallS c n).1 ++ (IfBodyStmt.lowerL tl (lowerCallS c n).2).1, (IfBodyStmt.lowerL tl (lowerCallS c n).2).2) := by
+  rw [IfBodyStmt.lowerL]
+theorem low_ifb_if (i : IfStmt) (tl : List IfBodyStmt) (n : Nat) : IfBodyStmt.lowerL (.ifS i :: tl) n =
+    ((IfStmt.lower i n).1 ++ (IfBodyStmt.lowerL tl (IfStmt.lower i n).2).1, (IfBodyStmt.lowerL tl (IfStmt.lower i n).2).2) := by
+  rw [IfBodyStmt.lowerL]
+theorem low_ifb_loop (b : List LoopStmt) (tl : List IfBodyStmt) (n : Nat) : IfBodyStmt.lowerL (.loop b :: tl) n =
+    ([Flow.loop (LoopStmt.lowerL b n).1] ++ (IfBodyStmt.lowerL tl (LoopStmt.lowerL b n).2).1, (IfBodyStmt.lowerL tl (LoopStmt.lowerL b n).2).2) := by
+  rw [IfBodyStmt.lowerL]
+theorem low_ifb_ret (e : Expr) (tl : List IfBodyStmt) (n : Nat) : IfBodyStmt.lowerL (.ret e :: tl) n =
+    ((lowerRet e n).1 ++ (IfBodyStmt.lowerL tl (lowerRet e n).2).1, (IfBodyStmt.lowerL tl (lowerRet e n).2).2) := by
+  rw [IfBodyStmt.lowerL]
+theorem low_ifb_nil (n : Nat) : IfBodyStmt.lowerL [] n = ([], n) := by rw [IfBodyStmt.lowerL]
+theorem low_ifl_let (b : LetB) (tl : List IfLoopStmt) (n : Nat) : IfLoopStmt.lowerL (.letB b :: tl) n =
+    ((lowerLet b n).1 ++ (IfLoopStmt.lowerL tl (lowerLet b n).2).1, (IfLoopStmt.lowerL tl (lowerLet b n).2).2) := by
+  rw [IfLoopStmt.lowerL]
+theorem low_ifl_bind (b : Bind) (tl : List IfLoopStmt) (n : Nat) : IfLoopStmt.lowerL (.bind b :: tl) n =
+    ((lowerBind b n).1 ++ (IfLoopStmt.lowerL tl (lowerBind b n).2).1, (IfLoopStmt.lowerL tl (lowerBind b n).2).2) := by
+  rw [IfLoopStmt.lowerL]
+theorem low_ifl_call (c : CallS) (tl : List IfLoopStmt) (n : Nat) : IfLoopStmt.lowerL (.call c :: tl) n =
+    ((lowerCallS c n).1 ++ (IfLoopStmt.lowerL tl (lowerCallS c n).2).1, (IfLoopStmt.lowerL tl (lowerCallS c n).2).2) := by
+  rw [IfLoopStmt.lowerL]
+theorem low_ifl_if (i : IfStmt) (tl : List IfLoopStmt) (n : Nat) : IfLoopStmt.lowerL (.ifS i :: tl) n =
+    ((IfStmt.lower i n).1 ++ (IfLoopStmt.lowerL tl (IfStmt.lower i n).2).1, (IfLoopStmt.lowerL tl (IfStmt.lower i n).2).2) := by
+  rw [IfLoopStmt.lowerL]
+theorem low_ifl_loop (b : List LoopStmt) (tl : List IfLoopStmt) (n : Nat) : IfLoopStmt.lowerL (.loop b :: tl) n =
+    ([Flow.loop (LoopStmt.lowerL b n).1] ++ (IfLoopStmt.lowerL tl (LoopStmt.lowerL b n).2).1, (IfLoopStmt.lowerL tl (LoopStmt.lowerL b n).2).2) := by
+  rw [IfLoopStmt.lowerL]
+theorem low_ifl_ret (e : Expr) (tl : List IfLoopStmt) (n : Nat) : IfLoopStmt.lowerL (.ret e :: tl) n =
+    ((lowerRet e n).1 ++ (IfLoopStmt.lowerL tl (lowerRet e n).2).1, (IfLoopStmt.lowerL tl (lowerRet e n).2).2) := by
+  rw [IfLoopStmt.lowerL]
+theorem low_ifl_brk  (tl : List IfLoopStmt) (n : Nat) : IfLoopStmt.lowerL (.brk :: tl) n =
+    ([Flow.brk] ++ (IfLoopStmt.lowerL tl n).1, (IfLoopStmt.lowerL tl n).2) := by
+  rw [IfLoopStmt.lowerL]
+theorem low_ifl_cont  (tl : List IfLoopStmt) (n : Nat) : IfLoopStmt.lowerL (.cont :: tl) n =
+    ([Flow.cont] ++ (IfLoopStmt.lowerL tl n).1, (IfLoopStmt.lowerL tl n).2) := by
+  rw [IfLoopStmt.lowerL]
+theorem low_ifl_nil (n : Nat) : IfLoopStmt.lowerL [] n = ([], n) := by rw [IfLoopStmt.lowerL]
+theorem low_lp_let (b : LetB) (tl : List LoopStmt) (n : Nat) : LoopStmt.lowerL (.letB b :: tl) n =
+    ((lowerLet b n).1 ++ (LoopStmt.lowerL tl (lowerLet b n).2).1, (LoopStmt.lowerL tl (lowerLet b n).2).2) := by
+  rw [LoopStmt.lowerL]
+theorem low_lp_bind (b : Bind) (tl : List LoopStmt) (n : Nat) : LoopStmt.lowerL (.bind b :: tl) n =
+    ((lowerBind b n).1 ++ (LoopStmt.lowerL tl (lowerBind b n).2).1, (LoopStmt.lowerL tl (lowerBind b n).2).2) := by
+  rw [LoopStmt.lowerL]
+theorem low_lp_call (c : CallS) (tl : List LoopStmt) (n : Nat) : LoopStmt.lowerL (.call c :: tl) n =
+    ((lowerCallS c n).1 ++ (LoopStmt.lowerL tl (lowerCallS c n).2).1, (LoopStmt.lowerL tl (lowerCallS c n).2).2) := by
+  rw [LoopStmt.lowerL]
+theorem low_lp_if (i : IfStmt) (tl : List LoopStmt) (n : Nat) : LoopStmt.lowerL (.ifS i :: tl) n =
+    ((IfStmt.lower i n).1 ++ (LoopStmt.lowerL tl (IfStmt.lower i n).2).1, (LoopStmt.lowerL tl (IfStmt.lower i n).2).2) := by
+  rw [LoopStmt.lowerL]
+theorem low_lp_loop (b : List LoopStmt) (tl : List LoopStmt) (n : Nat) : LoopStmt.lowerL (.loop b :: tl) n =
+    ([Flow.loop (LoopStmt.lowerL b n).1] ++ (LoopStmt.lowerL tl (LoopStmt.lowerL b n).2).1, (LoopStmt.lowerL tl (LoopStmt.lowerL b n).2).2) := by
+  rw [LoopStmt.lowerL]
+theorem low_lp_ret (e : Expr) (tl : List LoopStmt) (n : Nat) : LoopStmt.lowerL (.ret e :: tl) n =
+    ((lowerRet e n).1 ++ (LoopStmt.lowerL tl (lowerRet e n).2).1, (LoopStmt.lowerL tl (lowerRet e n).2).2) := by
+  rw [LoopStmt.lowerL]
+theorem low_lp_brk  (tl : List LoopStmt) (n : Nat) : LoopStmt.lowerL (.brk :: tl) n =
+    ([Flow.brk] ++ (LoopStmt.lowerL tl n).1, (LoopStmt.lowerL tl n).2) := by
+  rw [LoopStmt.lowerL]
+theorem low_lp_cont  (tl : List LoopStmt) (n : Nat) : LoopStmt.lowerL (.cont :: tl) n =
+    ([Flow.cont] ++ (LoopStmt.lowerL tl n).1, (LoopStmt.lowerL tl n).2) := by
+  rw [LoopStmt.lowerL]
+theorem low_lp_nil (n : Nat) : LoopStmt.lowerL [] n = ([], n) := by rw [LoopStmt.lowerL]
+theorem low_fb_let (b : LetB) (tl : List BodyStmt) (n : Nat) : BodyStmt.lowerL (.letB b :: tl) n =
+    ((lowerLet b n).1 ++ (BodyStmt.lowerL tl (lowerLet b n).2).1, (BodyStmt.lowerL tl (lowerLet b n).2).2) := by
+  rw [BodyStmt.lowerL]
+theorem low_fb_bind (b : Bind) (tl : List BodyStmt) (n : Nat) : BodyStmt.lowerL (.bind b :: tl) n =
+    ((lowerBind b n).1 ++ (BodyStmt.lowerL tl (lowerBind b n).2).1, (BodyStmt.lowerL tl (lowerBind b n).2).2) := by
+  rw [BodyStmt.lowerL]
+theorem low_fb_call (c : CallS) (tl : List BodyStmt) (n : Nat) : BodyStmt.lowerL (.call c :: tl) n =
+    ((lowerCallS c n).1 ++ (BodyStmt.lowerL tl (lowerCallS c n).2).1, (BodyStmt.lowerL tl (lowerCallS c n).2).2) := by
+  rw [BodyStmt.lowerL]
+theorem low_fb_if (i : IfStmt) (tl : List BodyStmt) (n : Nat) : BodyStmt.lowerL (.ifS i :: tl) n =
+    ((IfStmt.lower i n).1 ++ (BodyStmt.lowerL tl (IfStmt.lower i n).2).1, (BodyStmt.lowerL tl (IfStmt.lower i n).2).2) := by
+  rw [BodyStmt.lowerL]
+theorem low_fb_loop (b : List LoopStmt) (tl : List BodyStmt) (n : Nat) : BodyStmt.lowerL (.loop b :: tl) n =
+    ([Flow.loop (LoopStmt.lowerL b n).1] ++ (BodyStmt.lowerL tl (LoopStmt.lowerL b n).2).1, (BodyStmt.lowerL tl (LoopStmt.lowerL b n).2).2) := by
+  rw [BodyStmt.lowerL]
+theorem low_fb_ret (e : Expr) (tl : List BodyStmt) (n : Nat) : BodyStmt.lowerL (.ret e :: tl) n =
+    ((lowerRet e n).1 ++ (BodyStmt.lowerL tl (lowerRet e n).2).1, (BodyStmt.lowerL tl (lowerRet e n).2).2) := by
+  rw [BodyStmt.lowerL]
+theorem low_fb_expr (e : Expr) (tl : List BodyStmt) (n : Nat) : BodyStmt.lowerL (.expr e :: tl) n =
+    ((lowerRet e n).1 ++ (BodyStmt.lowerL tl (lowerRet e n).2).1, (BodyStmt.lowerL tl (lowerRet e n).2).2) := by
+  rw [BodyStmt.lowerL]
+theorem low_fb_nil (n : Nat) : BodyStmt.lowerL [] n = ([], n) := by rw [BodyStmt.lowerL]
+
+theorem low_if (cond : IfCond) (body : IfBodies) (els : Option IfBodies) (elif : Option IfStmt) (n : Nat) :
+    IfStmt.lower (.mk cond body els elif) n =
+    (match els, elif with
+    | some eb, _ => (evs n cond.calls ++ [.ite (IfBodies.lower body (n + cond.calls)).1 (IfBodies.lower eb (IfBodies.lower body (n + cond.calls)).2).1],
+        (IfBodies.lower eb (IfBodies.lower body (n + cond.calls)).2).2)
+    | none, some ei => (evs n cond.calls ++ [.ite (IfBodies.lower body (n + cond.calls)).1 (IfStmt.lower ei (IfBodies.lower body (n + cond.calls)).2).1],
+        (IfStmt.lower ei (IfBodies.lower body (n + cond.calls)).2).2)
+    | none, none => (evs n cond.calls ++ [.ite (IfBodies.lower body (n + cond.calls)).1 []], (IfBodies.lower body (n + cond.calls)).2)) := by
+  rw [IfStmt.lower]
+  cases els <;> cases elif <;> rfl
+
+theorem forbidden_fff (s : St) : forbidden false false false s = s := by simp [forbidden]
+
+theorem forbidden_grows (rc bc cc : Bool) (s : St) (h : rc = true ∨ bc = true ∨ cc = true) :
+    s.errors.length < (forbidden rc bc cc s).errors.length := by
+  cases rc <;> cases bc <;> cases cc <;> simp [forbidden, St.addErr] at h ⊢ <;> omega
+
+theorem RetV.cps {K : LoopK} {s s' : St} {p : List Flow × Nat} (h : RetV K s s' p) : CPSv K s s' p := by
+  obtain ⟨seg, h1, h2, h3⟩ := h
+  exact ⟨seg, h1, h2, fun rest code e _ => h3 rest code e⟩
+
+theorem RetV.body {K : LoopK} {s : St} {res : St × Bool} {p : List Flow × Nat} {lEnd : Name} (h : RetV K s res.1 p) :
+    BodyJ K s res p lEnd := by
+  obtain ⟨seg, h1, h2, h3⟩ := h
+  refine ⟨seg, h1, h2, ?_⟩
+  have := h3 [] (if res.2 then [] else [Instr.jumpTo lEnd]) (.jump lEnd)
+  simpa using this
+
+theorem eff_nil : effCount [] = 0 := rfl
+theorem eff_label (l : Name) : effCount [Instr.setLabel l] = 0 := rfl
+theorem eff_jump (l : Name) : effCount [Instr.jumpTo l] = 0 := rfl
+theorem eff_br_label {br : Instr} (l : Name) (hne : br.isEffect = false) : effCount [br, Instr.setLabel l] = 0 := by
+  rw [effCount_cons, effCount_cons, hne]; rfl
+theorem eff_ite_jump (r : Bool) (l : Name) : effCount (if r then [] else [Instr.jumpTo l]) = 0 := by cases r <;> rfl
+theorem eff_ite_label (r : Bool) (l : Name) : effCount (if r then [Instr.setLabel l] else []) = 0 := by cases r <;> rfl
+
+/-! ### Assembling an `if` -/
+
+/-- no else part -/
+theorem ite_noElse {K : LoopK} {n : Nat} {tb : List Flow} {seg0 tc : List Instr} {br : Instr} {lBegin lEnd : Name}
+    (hstr : ∀ i ∈ seg0, i.straight = true) (hbr : br.targets = [lBegin, lEnd]) (hnr : br.isRet = false) (hne : br.isEffect = false)
+    (htb : Lay K (n + effCount seg0) tb tc (.jump lEnd)) :
+    (∀ rest code e, Lay K (n + effCount seg0 + effCount tc) rest code e →
+      Lay K n ((evs n (effCount seg0) ++ [.ite tb []]) ++ rest)
+        ((seg0 ++ [br, Instr.setLabel lBegin] ++ tc ++ [Instr.setLabel lEnd]) ++ code) e) ∧
+    Lay K n (evs n (effCount seg0) ++ [.ite tb []]) (seg0 ++ [br, Instr.setLabel lBegin] ++ tc) (.jump lEnd) := by
+  refine ⟨fun rest code e hrest => ?_, ?_⟩
+  · have h := lay_seg seg0 n hstr (Lay.iteOwn br lBegin lEnd hbr hnr hne htb hrest)
+    simpa using h
+  · have h := lay_seg seg0 n hstr (Lay.itePass br lBegin lEnd hbr hnr hne htb)
+    simpa using h
+
+/-- with an else part (else body or else-if chain) -/
+theorem ite_else {K : LoopK} {n : Nat} {tb eb : List Flow} {seg0 tc ec : List Instr} {br : Instr} {lBegin lElse lEnd : Name}
+    (hstr : ∀ i ∈ seg0, i.straight = true) (hbr : br.targets = [lBegin, lElse]) (hnr : br.isRet = false) (hne : br.isEffect = false)
+    (htb : Lay K (n + effCount seg0) tb tc (.jump lEnd))
+    (heb : Lay K (n + effCount seg0 + effCount tc) eb ec (.jump lEnd)) :
+    (∀ rest code e, Lay K (n + effCount seg0 + effCount tc + effCount ec) rest code e →
+      Lay K n ((evs n (effCount seg0) ++ [.ite tb eb]) ++ rest)
+        ((seg0 ++ [br, Instr.setLabel lBegin] ++ tc ++ [Instr.setLabel lElse] ++ ec ++ [Instr.setLabel lEnd]) ++ code) e) ∧
+    Lay K n (evs n (effCount seg0) ++ [.ite tb eb]) (seg0 ++ [br, Instr.setLabel lBegin] ++ tc ++ [Instr.setLabel lElse] ++ ec) (.jump lEnd) := by
+  refine ⟨fun rest code e hrest => ?_, ?_⟩
+  · have h := lay_seg seg0 n hstr (Lay.iteElseOwn br lBegin lElse lEnd hbr hnr hne htb heb hrest)
+    simpa using h
+  · have h := lay_seg seg0 n hstr (Lay.iteElsePass br lBegin lElse lEnd hbr hnr hne htb heb)
+    simpa using h
+
+/-! ### One statement of a list, then the rest -/
+
+theorem bodyj_cons {K : LoopK} {s s1 : St} {res : St × Bool} {ss1 : SpecSt} {p1 : List Flow × Nat} {lEnd : Name}
+    (p2 : Nat → List Flow × Nat)
+    (x1 : ∃ Δ, s1.errors = s.errors ++ Δ) (x2 : ∃ Δ, res.1.errors = s1.errors ++ Δ) (he : res.1.errors = s.errors)
+    (h1 : s1.errors = s.errors → CPSv K s s1 p1 ∧ DRel s1 ss1)
+    (h2 : DRel s1 ss1 → res.1.errors = s1.errors → BodyJ K s1 res (p2 (effCount s1.root.context)) lEnd) :
+    BodyJ K s res (p1.1 ++ (p2 p1.2).1, (p2 p1.2).2) lEnd := by
+  obtain ⟨e1, e2⟩ := chain2 x1 x2 he
+  obtain ⟨c, d⟩ := h1 e1
+  have := h2 d e2
+  rw [c.eff] at this
+  exact c.thenBody this
+
+theorem cpsl_cons {K : LoopK} {s s1 : St} {res : St × Bool} {ss1 : SpecSt} {p1 : List Flow × Nat}
+    (p2 : Nat → List Flow × Nat)
+    (x1 : ∃ Δ, s1.errors = s.errors ++ Δ) (x2 : ∃ Δ, res.1.errors = s1.errors ++ Δ) (he : res.1.errors = s.errors)
+    (h1 : s1.errors = s.errors → CPSv K s s1 p1 ∧ DRel s1 ss1)
+    (h2 : DRel s1 ss1 → res.1.errors = s1.errors →
+      CPSv K s1 res.1 (p2 (effCount s1.root.context)) ∧ (res.2 = true → endsRet (p2 (effCount s1.root.context)).1 = true)) :
+    CPSv K s res.1 (p1.1 ++ (p2 p1.2).1, (p2 p1.2).2) ∧ (res.2 = true → endsRet (p1.1 ++ (p2 p1.2).1) = true) := by
+  obtain ⟨e1, e2⟩ := chain2 x1 x2 he
+  obtain ⟨c, d⟩ := h1 e1
+  have := h2 d e2
+  rw [c.eff] at this
+  exact ⟨c.trans this.1, fun hr => endsRet_append _ _ (this.2 hr)⟩
+
+/-- after a successful nested return nothing may follow -/
+theorem no_more_after {s sf : St} (rc bc cc : Bool) (h : rc = true ∨ bc = true ∨ cc = true)
+    (x : ∃ Δ, sf.errors = (forbidden rc bc cc s).errors ++ Δ) : sf.errors ≠ s.errors := by
+  intro heq
+  have h1 := forbidden_grows rc bc cc s h
+  obtain ⟨Δ, hΔ⟩ := x
+  have := congrArg List.length heq
+  rw [hΔ, List.length_append] at this
+  omega
+
+theorem cons_facts {s s1 sf : St} (rc bc cc : Bool)
+    (x1 : ∃ Δ, s1.errors = (forbidden rc bc cc s).errors ++ Δ) (x2 : ∃ Δ, sf.errors = s1.errors ++ Δ)
+    (he : sf.errors = s.errors) :
+    rc = false ∧ bc = false ∧ cc = false ∧ s1.errors = (forbidden rc bc cc s).errors ∧ sf.errors = s1.errors := by
+  obtain ⟨e0, e1, e2⟩ := chain3 (esteps_forbidden rc bc cc s).errors_ext x1 x2 he
+  obtain ⟨h1, h2, h3⟩ := forbidden_flags rc bc cc s e0
+  exact ⟨h1, h2, h3, e1, e2⟩
+
+/-! ### The mutual induction over the control constructs -/
+
+section mutualLay
+variable {g : Globals} {rg : RGlobals}
+
+theorem kof_some (lb le : Name) (b : Bool) : KOf (some (lb, le)) b = some (lb, le, b) := rfl
+
+
+mutual
+theorem lay_ifCondition (hg : GlobRel g rg) (hn : GNames g) : ∀ (i : IfStmt) (le : Option Name) (ll : Option (Name × Name)) (b : Bool),
+    IfStmt.anaOK ll.isSome i = true → (i.hasBrk = true → b = true) → i.f2 = false → i.f3 = false →
+    ∀ s ss, DRel s ss → (ifCondition g i le ll s).errors = s.errors →
+      (le = none → CPSv (KOf ll b) s (ifCondition g i le ll s) (IfStmt.lower i (effCount s.root.context))) ∧
+      (∀ l0, le = some l0 → PassV (KOf ll b) s (ifCondition g i le ll s) (IfStmt.lower i (effCount s.root.context)) l0)
+  | .mk cond body els elif, labelEnd, labelLoop, b => by
+    intro hok hbrk hf2 hf3 s ss hr he
+    unfold IfStmt.anaOK at hok
+    simp only [Bool.and_eq_true] at hok
+    obtain ⟨hokb, hokr⟩ := hok
+    unfold IfStmt.f2 at hf2
+    unfold IfStmt.f3 at hf3
+    simp only [Bool.or_eq_false_iff] at hf2 hf3
+    have hbb : body.hasBrk = true → b = true := fun h => hbrk (by unfold IfStmt.hasBrk; simp [h])
+    unfold ifCondition at he ⊢
+    dsimp only at he ⊢
+    rw [(quiet_ifEpilogue _ _ _ _).errors] at he
+    have x1 := (steps_ifPrologue g cond (els.isSome && elif.isSome) (els.isSome || elif.isSome) labelEnd s).errors_ext
+    have h1 := den_ifPrologue hg hn cond (els.isSome && elif.isSome) (els.isSome || elif.isSome) labelEnd s ss hr
+    have p1 := prologue_shape hg hn cond (els.isSome && elif.isSome) (els.isSome || elif.isSome) labelEnd s ss hr
+    generalize ifPrologue g cond (els.isSome && elif.isSome) (els.isSome || elif.isSome) labelEnd s = p at he x1 h1 p1 ⊢
+    obtain ⟨lElse, lEnd, s1⟩ := p
+    dsimp only at he x1 h1 p1 ⊢
+    have x2 := (steps_ifBodies g body lEnd labelLoop s1).errors_ext
+    have h2 := den_ifBodies hg hn body lEnd labelLoop hokb s1 (specIfCond false cond ss.push)
+    have l2 := lay_ifBodies hg hn body lEnd labelLoop b hokb hbb hf2.1.1 hf3.1.1 s1 (specIfCond false cond ss.push)
+    generalize ifBodies g body lEnd labelLoop s1 = q at he x2 h2 l2 ⊢
+    obtain ⟨s2, r⟩ := q
+    dsimp only at he x2 h2 l2 ⊢
+    have q3 := quiet_ifAfterBody (els.isSome || elif.isSome) r lElse lEnd s2
+    have f3 := ifAfterBody_fields (els.isSome || elif.isSome) r lElse lEnd s2
+    have c3 := ctx_ifAfterBody (els.isSome || elif.isSome) r lElse lEnd s2
+    generalize ifAfterBody (els.isSome || elif.isSome) r lElse lEnd s2 = q3' at he q3 f3 c3 ⊢
+    obtain ⟨k, s3⟩ := q3'
+    dsimp only at he q3 f3 c3 ⊢
+    have x4 : ∃ Δ, (match els, elif with
+        | some eb, _ => ifAfterElse k (ifBodies g eb lEnd labelLoop s3.enter).2 lEnd (ifBodies g eb lEnd labelLoop s3.enter).1
+        | none, some ei => ifCondition g ei (some lEnd) labelLoop s3
+        | none, none => s3).errors = s2.errors ++ Δ := by
+      rw [← q3.errors]
+      cases els with
+      | some eb =>
+        dsimp only
+        rw [(quiet_ifAfterElse _ _ _ _).errors]
+        exact (steps_ifBodies g eb lEnd labelLoop s3.enter).errors_ext
+      | none =>
+        cases elif with
+        | some ei => exact (steps_ifCondition g ei (some lEnd) labelLoop s3).errors_ext
+        | none => exact ⟨[], by simp⟩
+    have he' : (match els, elif with
+        | some eb, _ => ifAfterElse k (ifBodies g eb lEnd labelLoop s3.enter).2 lEnd (ifBodies g eb lEnd labelLoop s3.enter).1
+        | none, some ei => ifCondition g ei (some lEnd) labelLoop s3
+        | none, none => s3).errors = s.errors := by
+      cases els with
+      | some eb => exact he
+      | none => cases elif <;> exact he
+    obtain ⟨e1, e2, e4⟩ := chain3 x1 x2 x4 he'
+    obtain ⟨r1, len1⟩ := h1 e1
+    obtain ⟨r2, len2⟩ := h2 r1 e2
+    obtain ⟨segB, cB, nB, lB⟩ := l2 r1 e2
+    obtain ⟨seg0, br, lBegin, c1, hstr, hcnt, hbr, hnr, hne, hl0⟩ := p1 e1
+    have hne2 : s2.inner ≠ [] := inner_ne_of_len (by rw [len2, len1])
+    have f3' := f3 hne2
+    have r3 : DRel s3 (specBodies false rg body (specIfCond false cond ss.push)).pop := drel_leave r2 q3 f3'.2.1
+    rw [← q3.errors] at e4
+    -- event numbers
+    have hn1 : effCount s1.root.context = effCount s.root.context + effCount seg0 := by
+      rw [c1, effCount_append, effCount_append, eff_br_label _ hne]; omega
+    rw [hn1] at nB lB
+    rw [low_if, ← hcnt]
+    -- the then part with its trailing jump
+    generalize htc : segB ++ (if r then [] else [Instr.jumpTo lEnd]) = tc at lB
+    have htcn : effCount tc = effCount segB := by rw [← htc, effCount_append, eff_ite_jump]; omega
+    have hnb : (IfBodies.lower body (effCount s.root.context + effCount seg0)).2 =
+        effCount s.root.context + effCount seg0 + effCount tc := by rw [nB, htcn]
+    rw [hnb]
+    cases els with
+    | some eb =>
+      dsimp only at e4 hbr c3 ⊢
+      simp only [Option.isSome_some, Bool.true_or, if_true] at hbr c3
+      rw [(quiet_ifAfterElse _ _ _ _).errors] at e4
+      have hbe : eb.hasBrk = true → b = true := fun h => hbrk (by unfold IfStmt.hasBrk; simp [h])
+      have r3e : DRel s3.enter (specBodies false rg body (specIfCond false cond ss.push)).pop.push :=
+        drel_enter r3 (quiet_enter s3) (vals_enter s3)
+      have l4 := lay_ifBodies hg hn eb lEnd labelLoop b hokr hbe hf2.1.2 hf3.1.2 s3.enter _ r3e e4
+      have c5 := ctx_ifAfterElse k (ifBodies g eb lEnd labelLoop s3.enter).2 lEnd (ifBodies g eb lEnd labelLoop s3.enter).1
+      generalize ifBodies g eb lEnd labelLoop s3.enter = q4 at l4 c5 ⊢
+      obtain ⟨s4, r4⟩ := q4
+      dsimp only at l4 c5 ⊢
+      obtain ⟨segE, cE, nE, lE⟩ := l4
+      have hs3e : s3.enter.root.context = s3.root.context := rfl
+      rw [hs3e] at cE nE lE
+      have hn3 : effCount s3.root.context = effCount s.root.context + effCount seg0 + effCount tc := by
+        rw [c3, cB, c1]; simp only [effCount_append, eff_br_label _ hne, eff_ite_jump, eff_label, htcn]; omega
+      rw [hn3] at nE lE
+      generalize hec : segE ++ (if r4 then [] else [Instr.jumpTo lEnd]) = ec at lE
+      have hecn : effCount ec = effCount segE := by rw [← hec, effCount_append, eff_ite_jump]; omega
+      obtain ⟨hown, hpass⟩ := ite_else (n := effCount s.root.context) hstr hbr hnr hne lB lE
+      have hctx : (ifAfterElse k r4 lEnd s4).root.context =
+          s.root.context ++ (seg0 ++ [br, Instr.setLabel lBegin] ++ tc ++ [Instr.setLabel lElse] ++ ec) := by
+        rw [c5, cE, c3, cB, c1, ← htc, ← hec]; simp
+      refine ⟨fun hle => ?_, fun l0 hle => ?_⟩
+      · subst hle
+        refine ⟨seg0 ++ [br, Instr.setLabel lBegin] ++ tc ++ [Instr.setLabel lElse] ++ ec ++ [Instr.setLabel lEnd], ?_, ?_, ?_⟩
+        · rw [ctx_ifEpilogue, hctx]; simp
+        · dsimp only
+          rw [nE, ← hecn]; simp only [effCount_append, eff_br_label _ hne, eff_label]; omega
+        · intro rest code e hrest
+          dsimp only
+          apply hown
+          have : effCount (seg0 ++ [br, Instr.setLabel lBegin] ++ tc ++ [Instr.setLabel lElse] ++ ec ++ [Instr.setLabel lEnd]) =
+              effCount seg0 + effCount tc + effCount ec := by
+            simp only [effCount_append, eff_br_label _ hne, eff_label]; omega
+          rw [this] at hrest
+          simpa [Nat.add_assoc] using hrest
+      · subst hle
+        have hl := hl0 l0 rfl
+        subst hl
+        refine ⟨seg0 ++ [br, Instr.setLabel lBegin] ++ tc ++ [Instr.setLabel lElse] ++ ec, ?_, ?_, hpass⟩
+        · rw [ctx_ifEpilogue, hctx]; simp
+        · dsimp only
+          rw [nE, ← hecn]; simp only [effCount_append, eff_br_label _ hne, eff_label]; omega
+    | none =>
+      cases elif with
+      | some ei =>
+        dsimp only at e4 hbr c3 ⊢
+        simp only [Option.isSome_none, Option.isSome_some, Bool.false_or, if_true] at hbr c3
+        have hbe : ei.hasBrk = true → b = true := fun h => hbrk (by unfold IfStmt.hasBrk; simp [h])
+        obtain ⟨_, hp5⟩ := lay_ifCondition hg hn ei (some lEnd) labelLoop b hokr hbe hf2.2 hf3.2 s3 _ r3 e4
+        obtain ⟨ec, cE, nE, lE⟩ := hp5 lEnd rfl
+        have hn3 : effCount s3.root.context = effCount s.root.context + effCount seg0 + effCount tc := by
+          rw [c3, cB, c1]; simp only [effCount_append, eff_br_label _ hne, eff_ite_jump, eff_label, htcn]; omega
+        rw [hn3] at nE lE
+        obtain ⟨hown, hpass⟩ := ite_else (n := effCount s.root.context) hstr hbr hnr hne lB lE
+        have hctx : (ifCondition g ei (some lEnd) labelLoop s3).root.context =
+            s.root.context ++ (seg0 ++ [br, Instr.setLabel lBegin] ++ tc ++ [Instr.setLabel lElse] ++ ec) := by
+          rw [cE, c3, cB, c1, ← htc]; simp
+        refine ⟨fun hle => ?_, fun l0 hle => ?_⟩
+        · subst hle
+          refine ⟨seg0 ++ [br, Instr.setLabel lBegin] ++ tc ++ [Instr.setLabel lElse] ++ ec ++ [Instr.setLabel lEnd], ?_, ?_, ?_⟩
+          · rw [ctx_ifEpilogue, hctx]; simp
+          · dsimp only
+            rw [nE]; simp only [effCount_append, eff_br_label _ hne, eff_label]; omega
+          · intro rest code e hrest
+            dsimp only
+            apply hown
+            have : effCount (seg0 ++ [br, Instr.setLabel lBegin] ++ tc ++ [Instr.setLabel lElse] ++ ec ++ [Instr.setLabel lEnd]) =
+                effCount seg0 + effCount tc + effCount ec := by
+              simp only [effCount_append, eff_br_label _ hne, eff_label]; omega
+            rw [this] at hrest
+            simpa [Nat.add_assoc] using hrest
+        · subst hle
+          have hl := hl0 l0 rfl
+          subst hl
+          refine ⟨seg0 ++ [br, Instr.setLabel lBegin] ++ tc ++ [Instr.setLabel lElse] ++ ec, ?_, ?_, hpass⟩
+          · rw [ctx_ifEpilogue, hctx]; simp
+          · dsimp only
+            rw [nE]; simp only [effCount_append, eff_br_label _ hne, eff_label]; omega
+      | none =>
+        dsimp only at hbr c3 ⊢
+        simp only [Option.isSome_none, Bool.or_self, Bool.false_eq_true, if_false] at hbr c3
+        obtain ⟨hown, hpass⟩ := ite_noElse (n := effCount s.root.context) hstr hbr hnr hne lB
+        have hctx : s3.root.context = s.root.context ++ (seg0 ++ [br, Instr.setLabel lBegin] ++ tc) := by
+          rw [c3, cB, c1, ← htc]; simp
+        refine ⟨fun hle => ?_, fun l0 hle => ?_⟩
+        · subst hle
+          refine ⟨seg0 ++ [br, Instr.setLabel lBegin] ++ tc ++ [Instr.setLabel lEnd], ?_, ?_, ?_⟩
+          · rw [ctx_ifEpilogue, hctx]; simp
+          · dsimp only
+            simp only [effCount_append, eff_br_label _ hne, eff_label]; omega
+          · intro rest code e hrest
+            dsimp only
+            apply hown
+            have : effCount (seg0 ++ [br, Instr.setLabel lBegin] ++ tc ++ [Instr.setLabel lEnd]) = effCount seg0 + effCount tc := by
+              simp only [effCount_append, eff_br_label _ hne, eff_label]; omega
+            rw [this] at hrest
+            simpa [Nat.add_assoc] using hrest
+        · subst hle
+          have hl := hl0 l0 rfl
+          subst hl
+          refine ⟨seg0 ++ [br, Instr.setLabel lBegin] ++ tc, ?_, ?_, hpass⟩
+          · rw [ctx_ifEpilogue, hctx]; simp
+          · dsimp only
+            simp only [effCount_append, eff_br_label _ hne, eff_label]; omega
+theorem lay_ifBodies (hg : GlobRel g rg) (hn : GNames g) : ∀ (bd : IfBodies) (lEnd : Name) (ll : Option (Name × Name)) (b : Bool),
+    IfBodies.anaOK ll.isSome bd = true → (bd.hasBrk = true → b = true) → bd.f2 = false → bd.f3 = false →
+    ∀ s ss, DRel s ss → (ifBodies g bd lEnd ll s).1.errors = s.errors →
+      BodyJ (KOf ll b) s (ifBodies g bd lEnd ll s) (IfBodies.lower bd (effCount s.root.context)) lEnd
+  | .ifb l, lEnd, ll, b => by
+    intro hok hbrk hf2 hf3 s ss hr he
+    unfold IfBodies.anaOK at hok; unfold IfBodies.hasBrk at hbrk; unfold IfBodies.f2 at hf2; unfold IfBodies.f3 at hf3
+    unfold ifBodies at he ⊢
+    unfold IfBodies.lower
+    exact lay_ifBody hg hn l lEnd ll b false hok hbrk hf2 hf3 (fun _ => rfl) s ss hr he
+  | .loopb l, lEnd, some (lb, le), b => by
+    intro hok hbrk hf2 hf3 s ss hr he
+    unfold IfBodies.anaOK at hok; simp at hok
+    unfold IfBodies.hasBrk at hbrk; unfold IfBodies.f2 at hf2; unfold IfBodies.f3 at hf3
+    unfold ifBodies at he ⊢
+    unfold IfBodies.lower
+    exact lay_ifLoopBody hg hn l lEnd lb le b false false false hok hbrk hf2 hf3 (fun _ => rfl) s ss hr he
+  | .loopb _, _, none, _ => by
+    intro hok; unfold IfBodies.anaOK at hok; simp at hok
+theorem lay_ifBody (hg : GlobRel g rg) (hn : GNames g) : ∀ (l : List IfBodyStmt) (lEnd : Name) (ll : Option (Name × Name)) (b rc : Bool),
+    IfBodyStmt.anaOKL ll.isSome l = true → (IfBodyStmt.hasBrkL l = true → b = true) → IfBodyStmt.f2L l = false →
+    IfBodyStmt.f3L l = false → (l = [] → rc = false) →
+    ∀ s ss, DRel s ss → (ifBody g l lEnd ll rc s).1.errors = s.errors →
+      BodyJ (KOf ll b) s (ifBody g l lEnd ll rc s) (IfBodyStmt.lowerL l (effCount s.root.context)) lEnd
+  | [], lEnd, ll, b, rc => by
+    intro _ _ _ _ hrc s ss hr _
+    have : rc = false := hrc rfl
+    subst this
+    unfold ifBody
+    rw [low_ifb_nil]
+    refine ⟨[], by simp, by simp [effCount], ?_⟩
+    simpa using Lay.jmp (KOf ll b) (effCount s.root.context) lEnd []
+  | .letB bd :: tl, lEnd, ll, b, rc => by
+    intro hok hbrk hf2 hf3 _ s ss hr he
+    unfold IfBodyStmt.anaOKL at hok; unfold IfBodyStmt.hasBrkL at hbrk; unfold IfBodyStmt.f2L at hf2; unfold IfBodyStmt.f3L at hf3
+    unfold ifBody at he ⊢
+    dsimp only at he ⊢
+    obtain ⟨h1, _, _, _, _⟩ := cons_facts rc false false (esteps_letBinding g bd _).errors_ext (steps_ifBody g tl lEnd ll rc _).errors_ext he
+    subst h1
+    rw [forbidden_fff] at he ⊢
+    rw [low_ifb_let]
+    exact bodyj_cons (IfBodyStmt.lowerL tl) (esteps_letBinding g bd s).errors_ext (steps_ifBody g tl lEnd ll false _).errors_ext he
+      (fun e => ⟨cpsv_of (cps_let hg hn _ bd s ss hr e), den_let hg hn bd s ss hr e⟩)
+      (fun d e => lay_ifBody hg hn tl lEnd ll b false hok hbrk hf2 hf3 (fun _ => rfl) _ _ d e)
+  | .bind bd :: tl, lEnd, ll, b, rc => by
+    intro hok hbrk hf2 hf3 _ s ss hr he
+    unfold IfBodyStmt.anaOKL at hok; unfold IfBodyStmt.hasBrkL at hbrk; unfold IfBodyStmt.f2L at hf2; unfold IfBodyStmt.f3L at hf3
+    unfold ifBody at he ⊢
+    dsimp only at he ⊢
+    obtain ⟨h1, _, _, _, _⟩ := cons_facts rc false false (esteps_binding g bd _).errors_ext (steps_ifBody g tl lEnd ll rc _).errors_ext he
+    subst h1
+    rw [forbidden_fff] at he ⊢
+    rw [low_ifb_bind]
+    exact bodyj_cons (IfBodyStmt.lowerL tl) (esteps_binding g bd s).errors_ext (steps_ifBody g tl lEnd ll false _).errors_ext he
+      (fun e => ⟨cpsv_of (cps_bind hg hn _ bd s ss hr e), den_bind hg hn bd s ss hr e⟩)
+      (fun d e => lay_ifBody hg hn tl lEnd ll b false hok hbrk hf2 hf3 (fun _ => rfl) _ _ d e)
+  | .call c :: tl, lEnd, ll, b, rc => by
+    intro hok hbrk hf2 hf3 _ s ss hr he
+    unfold IfBodyStmt.anaOKL at hok; unfold IfBodyStmt.hasBrkL at hbrk; unfold IfBodyStmt.f2L at hf2; unfold IfBodyStmt.f3L at hf3
+    unfold ifBody at he ⊢
+    dsimp only at he ⊢
+    obtain ⟨h1, _, _, _, _⟩ := cons_facts rc false false (esteps_callStmt g c _).errors_ext (steps_ifBody g tl lEnd ll rc _).errors_ext he
+    subst h1
+    rw [forbidden_fff] at he ⊢
+    rw [low_ifb_call]
+    exact bodyj_cons (IfBodyStmt.lowerL tl) (esteps_callStmt g c s).errors_ext (steps_ifBody g tl lEnd ll false _).errors_ext he
+      (fun e => ⟨cpsv_of (cps_callS hg hn _ c s ss hr e), den_callS hg hn c s ss hr e⟩)
+      (fun d e => lay_ifBody hg hn tl lEnd ll b false hok hbrk hf2 hf3 (fun _ => rfl) _ _ d e)
+  | _, _, _, _, _ => sorry
+theorem lay_ifLoopBody (hg : GlobRel g rg) (hn : GNames g) : ∀ (l : List IfLoopStmt) (lEnd lb le : Name) (b rc bc cc : Bool),
+    IfLoopStmt.anaOKL l = true → (IfLoopStmt.hasBrkL l = true → b = true) → IfLoopStmt.f2L l = false →
+    IfLoopStmt.f3L l = false → (l = [] → rc = false) →
+    ∀ s ss, DRel s ss → (ifLoopBody g l lEnd lb le rc bc cc s).1.errors = s.errors →
+      BodyJ (some (lb, le, b)) s (ifLoopBody g l lEnd lb le rc bc cc s) (IfLoopStmt.lowerL l (effCount s.root.context)) lEnd
+  | _, _, _, _, _, _, _, _ => sorry
+theorem lay_loopBody (hg : GlobRel g rg) (hn : GNames g) : ∀ (l : List LoopStmt) (lb le : Name) (b rc bc cc : Bool),
+    LoopStmt.anaOKL l = true → (LoopStmt.nestedBrkL l = true → b = true) → LoopStmt.f2L l = false →
+    LoopStmt.f3L l = false → (l = [] → rc = false) →
+    ∀ s ss, DRel s ss → (loopBody g l lb le rc bc cc s).1.errors = s.errors →
+      CPSv (some (lb, le, b)) s (loopBody g l lb le rc bc cc s).1 (LoopStmt.lowerL l (effCount s.root.context)) ∧
+      ((loopBody g l lb le rc bc cc s).2 = true → endsRet (LoopStmt.lowerL l (effCount s.root.context)).1 = true)
+  | _, _, _, _, _, _, _ => sorry
+end
+
+end mutualLay
 
 end SemVerif
